@@ -155,7 +155,9 @@ class DocGen:
             r = rng.random()
             if r < 0.35:
                 if rng.random() < 0.3:
-                    self.decl("f%d" % n, "int f%d, g%d;" % (n, n), indent, can_trail=False, second="g%d" % n)
+                    # several declarators: a comment behind the ';' trails the statement, i.e. documents its first declarator only
+                    mid = rng.choice([", ", " = 1, ", "[2], *", " = k(1, 2), ", "{1, 2}, "])
+                    self.decl("f%d" % n, "int f%d%sg%d;" % (n, mid, n), indent, can_trail=True, second="g%d" % n)
                 elif rng.random() < 0.3:
                     # an initialiser that spans several lines: the trailing comment follows the closing ';'
                     init = rng.choice(["[2] = {\n%s  1,\n%s  2,\n%s}" % (indent, indent, indent), " =\n%s  0x0f |\n%s  0xf0" % (indent, indent),
@@ -248,7 +250,8 @@ class DocGen:
                     self.decl("sf%d" % n, "%sint sf%d(int a);" % (pre, n), indent)
             elif r < 0.2:
                 if rng.random() < 0.3:
-                    self.decl("v%d" % n, "int v%d = 1, w%d;" % (n, n), indent, second="w%d" % n)
+                    mid = rng.choice([" = 1, ", ", ", "[2], *", " = k(1, 2), ", "{1, 2}, "])
+                    self.decl("v%d" % n, "int v%d%sw%d;" % (n, mid, n), indent, can_trail=True, second="w%d" % n)
                 elif rng.random() < 0.3:
                     init = rng.choice(["[2] = {\n%s  1,\n%s  2,\n%s}" % (indent, indent, indent), " =\n%s  0x0f |\n%s  0xf0" % (indent, indent),
                                        " = f(1,\n%s      2)" % indent])
